@@ -400,6 +400,7 @@ static void do_G (char *line) {
      trips over it: gen_setup_lrefs reads the deleted label of an lref whose jmpi became unreachable,
      fixed since by fixes/C03-4.patch) */
   ctx = getenv ("C16_POISON") != NULL ? MIR_init2 (&pz_alloc, NULL) : MIR_init ();
+  if (getenv ("C16_POISON") != NULL && getenv ("C16_POISON")[0] == '2') pz_poison = 1; /* and fill freed blocks */
   MIR_set_error_func (ctx, prog_err_func);
   MIR_gen_init (ctx);
   trace_generator ();
@@ -434,8 +435,10 @@ static void do_G (char *line) {
         printf (" NOFUNC");
         continue;
       }
+      void *d0 = p_funcs[i]->data; /* the interpreter's code for this function, if it ran there */
       void *a = MIR_gen (ctx, p_funcs[i]);
       printf (" %s", a == p_addr0[i] && a == p_funcs[i]->addr ? "g" : "GEN-RETURNED-OTHER-ADDR");
+      if (p_funcs[i]->data != d0) printf (" INTERP-STATE-LOST");
     } else if ((strcmp (v[0], "call") == 0 || strcmp (v[0], "icall") == 0) && n >= 3) {
       int i = find_func (v[1]);
       if (i < 0) {
